@@ -425,3 +425,9 @@ mutant('C11-koyama-lpmin-before-check', 'C11', 'R11.v', KOYF2, "        if self.
 twin('C11-twin-koyama-cos-avg-rewritten', 'C11', KOYF2, "        return 1/e  - ( exp(e) + cos0*exp(-e*cos0) )/( exp(e) - exp(-e*cos0) )", "        den = exp(e) - exp(-e*cos0)\n        return 1.0/e - exp(e)/den - cos0*exp(-e*cos0)/den")
 mutant('C16-system-iterpairs-negated-filter', 'C16', 'R16.i', SYF, "            if test(i,j):\n                yield (i,j),(t1,t2)", "            if not test(i,j):\n                yield (i,j),(t1,t2)")
 twin('C16-twin-system-iterpairs-operator', 'C16', SYF, "            test = lambda i,j: i<=j", "            test = lambda i,j: not j<i")
+NFJ2 = 'pyPRISM/omega/NonOverlappingFreelyJointedChain.py'
+mutant('C11-nfjc-normalisation-sign', 'C11', 'R11.n', NFJ2, "B = (1 - J0val)**(-1.0)", "B = (1 + J0val)**(-1.0)")
+mutant('C11-nfjc-j0-prefactor', 'C11', 'R11.n', NFJ2, "J0val = 2/np.pi * integrate(", "J0val = 3/np.pi * integrate(")
+mutant('C11-nfjc-kernel-sign', 'C11', 'R11.n', NFJ2, "np.sin(K-X)/(K-X) - np.sin(K+X)/(K+X)", "np.sin(K-X)/(K-X) + np.sin(K+X)/(K+X)")
+mutant('C11-nfjc-multiplicity-divided', 'C11', None, NFJ2, "self.value +=  (self.length - tau) * (omega_t - (sinkk)**(tau))", "self.value +=  (self.length - tau) / (omega_t - (sinkk)**(tau))")
+mutant('C11-nfjc-empty-grid', 'C11', None, NFJ2, "x = np.arange(dx,100,dx)", "x = np.arange(100,dx,dx)")
